@@ -3,6 +3,7 @@ package props
 import (
 	"fmt"
 	"math/big"
+	"math/bits"
 
 	"github.com/tuneinsight/lattigo/v6/core/rlwe"
 	"github.com/tuneinsight/lattigo/v6/multiparty"
@@ -810,6 +811,29 @@ func (r *c14Run) checkKey(in *c14Inst, crps []c14CRPs, s, s2 *rlwe.SecretKey, B 
 	var gk *rlwe.GaloisKey
 	var rlk *rlwe.RelinearizationKey
 	var err error
+	// a key object allocated for another decomposition than the shares' (a receiver left from another instance)
+	// is refused, not filled: the result would announce its own decomposition and hold the rows of the other
+	if in.kind != kRKG && ch.Chance("finalise-into-other-decomposition", 1, 4) {
+		b2x := in.b2 + 5
+		if in.b2 >= 16 {
+			b2x = 0
+		}
+		lq, lp := in.lq, in.lp
+		epx := rlwe.EvaluationKeyParameters{LevelQ: &lq, LevelP: &lp, BaseTwoDecomposition: &b2x}
+		var ferr error
+		pk, _, _ := core.Protect(func() {
+			if in.kind == kGKG {
+				ferr = root.gkg.GenGaloisKey(*in.rootAgg[0].(*multiparty.GaloisKeyGenShare), crps[in.id].gkg, rlwe.NewGaloisKey(params, epx))
+			} else {
+				ferr = root.evk.GenEvaluationKey(*in.rootAgg[0].(*multiparty.EvaluationKeyGenShare), crps[in.id].evk, rlwe.NewEvaluationKey(params, epx))
+			}
+		})
+		ctx.Count("oracle.mismatched-key-receiver-rejected", 1)
+		if !pk && ferr == nil {
+			ctx.Fail("mismatch", kn+".finalize|other-decomposition-accepted", "the aggregated shares of %s were written into a key allocated with base-two decomposition %d without an error", in, b2x)
+			return false
+		}
+	}
 	pnk, site, msg := core.Protect(func() {
 		switch in.kind {
 		case kRKG:
@@ -959,6 +983,18 @@ func (r *c14Run) checkKey(in *c14Inst, crps []c14CRPs, s, s2 *rlwe.SecretKey, B 
 		// "exactly as a single-party key for that ideal secret would": compare
 		sres, serr, spnk, _, _ := single()
 		if spnk || serr != nil || sres.Cmp(ks) > 0 {
+			// one cause of a parameterisation whose keys cannot work, collective or not: fewer base-two digits
+			// than the bits of a prime (the top bits of the decomposed value are dropped). The protocol and
+			// the key generator accept the parameterisation, so the keys have to work.
+			if in.b2 > 0 && in.lp <= 0 && !pnk && err == nil {
+				digits := params.BaseTwoDecompositionVectorSize(in.lq, in.lp, in.b2)
+				for i := 0; i <= in.lq && i < len(digits); i++ {
+					if bl := bits.Len64(params.Q()[i]); digits[i]*in.b2 < bl {
+						ctx.Fail("functional", kn+"|digits-do-not-cover-modulus", "%s: prime %d has %d bits but gets %d digits of %d bits: the collective key (and a single-party key alike) switches with an error of %s > hard bound %s", in, i, bl, digits[i], in.b2, res.String(), ks.String())
+						return false
+					}
+				}
+			}
 			ctx.Count("probe.single-party-key-fails-too", 1)
 			ctx.Event("%s: single-party key of the ideal secret fails the same use (not a property of the protocol)", in)
 			return true
